@@ -7,7 +7,8 @@ VERIF = os.path.dirname(HERE)
 
 COMMON_NOTE = ("Trusted: Lean 4.33.0 kernel; axioms propext/Classical.choice/Quot.sound only (audited per theorem on every run); "
                "the hand-written model is tied to /repo's working tree by the correspondence run (F: bit-exact binary64, "
-               "X: exact integers on the dyadic grid) and by an independent Python oracle of the property; harness/ and CPython. ")
+               "X: exact integers on the dyadic grid) and by an independent Python oracle of the property; harness/ and CPython. "
+               "The thorough tier runs ten times the cases and re-checks the compiled proofs with leanchecker. ")
 
 CLAIMS = {}
 for _fn in sorted(os.listdir(os.path.join(HERE, "claims"))):
